@@ -87,6 +87,14 @@ impl Env {
 
 const RSA_SK: &[u8] = include_bytes!("../keys/v1_public_test_vectors_private_key.pk8");
 const RSA_PK: &[u8] = include_bytes!("../keys/v1_public_test_vectors_public_key.der");
+// further RSA-2048 pairs (openssl genpkey, PKCS#8 / PKCS#1 public): b and c have the PKCS#8 length of the vector key (1217), d another (1218)
+const RSA_POOL: [(&[u8], &[u8]); 4] = [
+    (RSA_SK, RSA_PK),
+    (include_bytes!("../keys/rsa_b.pk8"), include_bytes!("../keys/rsa_b.der")),
+    (include_bytes!("../keys/rsa_c.pk8"), include_bytes!("../keys/rsa_c.der")),
+    (include_bytes!("../keys/rsa_d.pk8"), include_bytes!("../keys/rsa_d.der")),
+];
+pub static RSA_INDEX: std::sync::atomic::AtomicUsize = std::sync::atomic::AtomicUsize::new(0);
 
 pub fn keys_for(proto: &str, seed: &[u8], want_tag: Option<u8>) -> (Vec<u8>, Vec<u8>) {
     match proto {
@@ -127,7 +135,11 @@ pub fn keys_for(proto: &str, seed: &[u8], want_tag: Option<u8>) -> (Vec<u8>, Vec
                 }
             }
         }
-        "v1.public" => (RSA_SK.to_vec(), RSA_PK.to_vec()),
+        "v1.public" => {
+            // RSA keys cannot be derived from a seed here: the caller names one of the fixture pairs (`index`, default 0)
+            let (sk, pk) = RSA_POOL[RSA_INDEX.load(std::sync::atomic::Ordering::SeqCst) % RSA_POOL.len()];
+            (sk.to_vec(), pk.to_vec())
+        }
         _ => {
             let mut k = vec![0u8; 32];
             for (i, b) in seed.iter().take(32).enumerate() {
@@ -444,7 +456,9 @@ fn main() {
         let out = st["out"].as_str().unwrap_or("_").to_string();
         match op {
             "keys" => {
+                RSA_INDEX.store(st["index"].as_u64().unwrap_or(0) as usize, std::sync::atomic::Ordering::SeqCst);
                 let (sk, pk) = keys_for(st["proto"].as_str().unwrap_or(""), &hexv(&st["seed"]), st["want_tag"].as_u64().map(|t| t as u8));
+                RSA_INDEX.store(0, std::sync::atomic::Ordering::SeqCst);
                 env.bytes.insert(format!("{}_sk", out), sk);
                 env.bytes.insert(format!("{}_pk", out), pk.clone());
                 trace.push(json!({"keys": out, "pk": hex::encode(pk)}));
